@@ -1,10 +1,13 @@
-// C17 (engine E-THR): RemoveCallback / instrument destruction racing a collection.
+// C17 (engine E-THR): RemoveCallback / instrument destruction racing a collection (obs_remove_race);
+// collections of two or three readers running concurrently (obs_concurrent_collect, see there).
 // "A removed callback (or one whose instrument was destroyed) is never invoked again" must also hold
 // when the removal happens on another thread while a reader collects: a flag is set AFTER
 // RemoveCallback / the instrument's destruction has returned, and the callback reports a violation
 // if it ever runs with the flag set.  Real threads, brute force over rounds; ASan and TSan builds.
 #include <atomic>
 #include <chrono>
+#include <cstdint>
+#include <map>
 #include <memory>
 #include <string>
 #include <thread>
@@ -13,6 +16,9 @@
 #include "opentelemetry/metrics/async_instruments.h"
 #include "opentelemetry/metrics/meter.h"
 #include "opentelemetry/metrics/observer_result.h"
+#include "opentelemetry/sdk/metrics/data/metric_data.h"
+#include "opentelemetry/sdk/metrics/data/point_data.h"
+#include "opentelemetry/sdk/metrics/export/metric_producer.h"
 #include "opentelemetry/sdk/metrics/meter_provider.h"
 #include "opentelemetry/sdk/metrics/metric_reader.h"
 #include "vh.h"
@@ -128,6 +134,187 @@ VH_TARGET(obs_remove_race, 2,
       if (s->calls.load() > 0)
         overlapped = true;
     }
+  }
+  c.nontrivial = overlapped;
+}
+
+// ------------------------------------------------------------------------------------------------
+// Collections by several readers at the same time.  Every callback reports a running total that
+// grows by one per invocation and its own attribute set, so whatever the schedule:
+//   * "invoked exactly once per collection": the number of invocations of a callback equals the
+//     number of Collect calls made by all readers, and it is one in every sequential collection;
+//   * "a cumulative reader receives the reported total / a delta reader the difference from what it
+//     was last given, independent of other readers' collections": the total a reader holds after a
+//     collection (the value for a cumulative reader, the sum of everything it was given for a delta
+//     reader) is a total that was reported during that collection - at least the total before the
+//     Collect call plus one, at most the total when it returned - and in the closing sequential
+//     round it is exactly the total reported in that very collection.
+namespace
+{
+class TemporalityReader final : public sdkm::MetricReader
+{
+public:
+  explicit TemporalityReader(bool delta) : delta_(delta) {}
+  sdkm::AggregationTemporality GetAggregationTemporality(sdkm::InstrumentType) const noexcept override
+  {
+    return delta_ ? sdkm::AggregationTemporality::kDelta : sdkm::AggregationTemporality::kCumulative;
+  }
+  bool delta() const { return delta_; }
+
+private:
+  bool OnForceFlush(std::chrono::microseconds) noexcept override { return true; }
+  bool OnShutDown(std::chrono::microseconds) noexcept override { return true; }
+  bool delta_;
+};
+
+struct GrowState
+{
+  int64_t id = 0;
+  std::atomic<int64_t> total{0};
+};
+
+void growing_callback(apim::ObserverResult result, void *state)
+{
+  auto *s   = static_cast<GrowState *>(state);
+  int64_t t = ++s->total;
+  if (otel::nostd::holds_alternative<otel::nostd::shared_ptr<apim::ObserverResultT<int64_t>>>(result))
+    otel::nostd::get<otel::nostd::shared_ptr<apim::ObserverResultT<int64_t>>>(result)->Observe(t, {{"cb", s->id}});
+}
+
+// one Collect: the value delivered per callback id (absent = no point), false when something that
+// is wrong whatever the schedule was seen (text in *err)
+bool collect_points(sdkm::MetricReader &reader, std::map<int64_t, int64_t> *out, std::string *err)
+{
+  bool ok = reader.Collect([&](sdkm::ResourceMetrics &rm) {
+    for (auto &sm : rm.scope_metric_data_)
+      for (auto &md : sm.metric_data_)
+        for (auto &p : md.point_data_attr_)
+        {
+          auto it = p.attributes.find("cb");
+          if (it == p.attributes.end() || !otel::nostd::holds_alternative<int64_t>(it->second) ||
+              !otel::nostd::holds_alternative<sdkm::SumPointData>(p.point_data) ||
+              !otel::nostd::holds_alternative<int64_t>(otel::nostd::get<sdkm::SumPointData>(p.point_data).value_))
+          {
+            *err = "a point that is not a long sum with the callback's attribute set was delivered";
+            continue;
+          }
+          int64_t id = otel::nostd::get<int64_t>(it->second);
+          if (out->count(id))
+            *err = "two points for the attribute set of callback " + std::to_string(id) + " in one collection";
+          (*out)[id] = otel::nostd::get<int64_t>(otel::nostd::get<sdkm::SumPointData>(p.point_data).value_);
+        }
+    return true;
+  });
+  if (!ok)
+    *err = "MetricReader::Collect returned false";
+  return err->empty();
+}
+}  // namespace
+
+VH_TARGET(obs_concurrent_collect, 2,
+          "two or three readers of mixed temporality collect concurrently from one observable counter; "
+          "non-trivial when, in some round, some reader's Collect started before and returned after a "
+          "callback invocation made for another reader (the collections really overlapped in time); "
+          "distinct = distinct configuration text")
+{
+  vh::Reader &rd    = c.rd;
+  unsigned nreaders = 2 + rd.below(2);
+  std::vector<bool> delta;
+  std::string cfg = "readers=";
+  for (unsigned i = 0; i < nreaders; ++i)
+  {
+    delta.push_back(rd.coin());
+    cfg += delta.back() ? "D" : "C";
+  }
+  unsigned ncb    = 1 + rd.below(2);
+  unsigned rounds = 2 + rd.below(4);
+  unsigned per    = 10 + rd.below(50);
+  c.note(cfg + " callbacks=" + std::to_string(ncb) + " rounds=" + std::to_string(rounds) + " collects-per-reader=" +
+         std::to_string(per) + "\n");
+  bool overlapped = false;
+  for (unsigned round = 0; round < rounds; ++round)
+  {
+    auto provider = std::make_shared<sdkm::MeterProvider>();
+    std::vector<std::shared_ptr<TemporalityReader>> readers;
+    for (unsigned i = 0; i < nreaders; ++i)
+    {
+      readers.emplace_back(new TemporalityReader(delta[i]));
+      provider->AddMetricReader(readers.back());
+    }
+    auto meter = provider->GetMeter("c17-concurrent");
+    auto inst  = meter->CreateInt64ObservableCounter("grow");
+    std::vector<std::unique_ptr<GrowState>> states;
+    for (unsigned i = 0; i < ncb; ++i)
+    {
+      states.emplace_back(new GrowState());
+      states.back()->id = static_cast<int64_t>(i);
+      inst->AddCallback(growing_callback, states.back().get());
+    }
+    // per reader, per callback: the total the reader holds (cumulative: last value; delta: sum)
+    std::vector<std::map<int64_t, int64_t>> held(nreaders);
+    std::vector<std::string> errs(nreaders);
+    std::vector<char> saw_overlap(nreaders, 0);
+    std::atomic<unsigned> ready{0};
+    auto one_collect = [&](unsigned r, bool sequential) {
+      std::vector<int64_t> before;
+      for (auto &s : states)
+        before.push_back(s->total.load());
+      std::map<int64_t, int64_t> got;
+      std::string err;
+      if (!collect_points(*readers[r], &got, &err))
+      {
+        errs[r] = err;
+        return;
+      }
+      for (unsigned k = 0; k < ncb && errs[r].empty(); ++k)
+      {
+        int64_t after = states[k]->total.load();
+        auto it       = got.find(static_cast<int64_t>(k));
+        if (delta[r])
+          held[r][k] += it == got.end() ? 0 : it->second;
+        else if (it != got.end())
+          held[r][k] = it->second;
+        else
+          errs[r] = "no point for callback " + std::to_string(k) + " was delivered to the cumulative reader";
+        if (after - before[k] > 1)
+          saw_overlap[r] = 1;
+        if (sequential && after != before[k] + 1)
+          errs[r] = "callback " + std::to_string(k) + " was invoked " + std::to_string(after - before[k]) +
+                    " time(s) in one collection made while no other collection was running";
+        int64_t h = held[r][k];
+        if (errs[r].empty() && (h < before[k] + 1 || h > after))
+          errs[r] = std::string(delta[r] ? "the deltas given to delta" : "the value given to cumulative") + " reader " +
+                    std::to_string(r) + " for callback " + std::to_string(k) + " add up to " + std::to_string(h) +
+                    "; the totals reported during this collection lie in [" + std::to_string(before[k] + 1) + ", " +
+                    std::to_string(after) + "]" + (sequential ? " (sequential collection)" : " (concurrent collections)");
+      }
+    };
+    std::vector<std::thread> threads;
+    for (unsigned r = 0; r < nreaders; ++r)
+      threads.emplace_back([&, r]() {
+        ready++;
+        while (ready.load() < nreaders)
+          std::this_thread::yield();
+        for (unsigned i = 0; i < per && errs[r].empty(); ++i)
+          one_collect(r, false);
+      });
+    for (auto &t : threads)
+      t.join();
+    for (unsigned r = 0; r < nreaders; ++r)
+    {
+      VH_CHECK(c, errs[r].empty(), "round " << round << ", reader " << r << ": " << errs[r]);
+      overlapped = overlapped || saw_overlap[r];
+    }
+    // closing round, sequential
+    for (unsigned r = 0; r < nreaders; ++r)
+    {
+      one_collect(r, true);
+      VH_CHECK(c, errs[r].empty(), "round " << round << ", closing collection of reader " << r << ": " << errs[r]);
+    }
+    for (unsigned k = 0; k < ncb; ++k)
+      VH_CHECK(c, states[k]->total.load() == static_cast<int64_t>(nreaders) * (per + 1),
+               "round " << round << ": callback " << k << " was invoked " << states[k]->total.load() << " times during "
+                        << nreaders * (per + 1) << " collections");
   }
   c.nontrivial = overlapped;
 }
